@@ -347,15 +347,20 @@ void ezc3d::c3d::point(const std::vector<ezc3d::DataNS::Frame>& frames)
         throw std::invalid_argument("Points in the frames cannot be empty");
 
     std::vector<std::string> labels(parameters().group("POINT").parameter("LABELS").valuesAsString());
-    for (size_t idx = 0; idx < frames[0].points().nbPoints(); ++idx){
+    size_t nNewPoints(frames[0].points().nbPoints());
+    for (size_t f=0; f<frames.size(); ++f)
+        if (frames[f].points().nbPoints() < nNewPoints)
+            throw std::invalid_argument("All the frames must have the points of the first frame");
+    for (size_t idx = 0; idx < nNewPoints; ++idx){
         const std::string &name(frames[0].points().point(idx).name());
         for (size_t i=0; i<labels.size(); ++i)
             if (!name.compare(labels[i]))
                 throw std::invalid_argument("The point you try to create already exists in the data set");
-
-        for (size_t f=0; f<data().nbFrames(); ++f)
-            _data->frame_nonConst(f).points_nonConst().point(frames[f].points().point(idx));
     }
+
+    for (size_t idx = 0; idx < nNewPoints; ++idx)
+        for (size_t f=0; f<frames.size(); ++f)
+            _data->frame_nonConst(f).points_nonConst().point(frames[f].points().point(idx));
     updateParameters();
 }
 
@@ -391,18 +396,26 @@ void ezc3d::c3d::analog(const std::vector<ezc3d::DataNS::Frame> &frames)
         throw std::invalid_argument("Channels in the frame cannot be empty");
 
     std::vector<std::string> labels(parameters().group("ANALOG").parameter("LABELS").valuesAsString());
-    for (size_t idx = 0; idx < frames[0].analogs().subframe(0).nbChannels(); ++idx){
+    size_t nSubframes(frames[0].analogs().nbSubframes());
+    size_t nNewChannels(frames[0].analogs().subframe(0).nbChannels());
+    for (size_t f=0; f<frames.size(); ++f){
+        if (frames[f].analogs().nbSubframes() < nSubframes || data().frame(f).analogs().nbSubframes() < nSubframes)
+            throw std::invalid_argument("All the frames must have the subframes of the first frame");
+        for (size_t sf=0; sf<nSubframes; ++sf)
+            if (frames[f].analogs().subframe(sf).nbChannels() < nNewChannels)
+                throw std::invalid_argument("All the subframes must have the channels of the first subframe");
+    }
+    for (size_t idx = 0; idx < nNewChannels; ++idx){
         const std::string &name(frames[0].analogs().subframe(0).channel(idx).name());
         for (size_t i=0; i<labels.size(); ++i)
             if (!name.compare(labels[i]))
                 throw std::invalid_argument("The channel you try to create already exists in the data set");
-
-        for (size_t f=0; f < data().nbFrames(); ++f){
-            for (size_t sf=0; sf < header().nbAnalogByFrame(); ++sf){
-                _data->frame_nonConst(f).analogs_nonConst().subframe_nonConst(sf).channel(frames[f].analogs().subframe(sf).channel(idx));
-            }
-        }
     }
+
+    for (size_t idx = 0; idx < nNewChannels; ++idx)
+        for (size_t f=0; f < frames.size(); ++f)
+            for (size_t sf=0; sf < nSubframes; ++sf)
+                _data->frame_nonConst(f).analogs_nonConst().subframe_nonConst(sf).channel(frames[f].analogs().subframe(sf).channel(idx));
     updateParameters();
 }
 
